@@ -282,6 +282,10 @@ def build_harness(profile="release"):
         rc, out, dt = sh(cmd, cwd=d, env=env, timeout=1200)
         if rc == 0:
             break
+        if _attempt == 0 and not re.search(r"^error[^\n]*\n\s*--> src/", out, re.M):
+            # no source error at all (an interrupted earlier build can leave the incremental cache unusable): clean it and retry once
+            shutil.rmtree(os.path.join(CACHE, "target", "release" if profile == "release" else "debug", "incremental"), ignore_errors=True)
+            continue
         bad = set(re.findall(r"^error[^\n]*\n\s*--> src/(fam_\w+)\.rs", out, re.M)) - EXCLUDED_FAMS   # primary location of each error only
         if not bad:
             break
